@@ -256,7 +256,55 @@ class Tensor(SArr):
         return a
 
     def contiguous(self):
+        # torch: the tensor itself when it already is contiguous, a fresh copy otherwise (e.g. after expand / transpose)
+        a = real_np.asarray(self)
+        if a.flags['C_CONTIGUOUS']:
+            return self
+        return _tag(T(real_np.ascontiguousarray(a)), self._dt)
+
+    def expand(self, *sizes):
+        if len(sizes) == 1 and isinstance(sizes[0], (tuple, list)):
+            sizes = tuple(sizes[0])
+        a = real_np.asarray(self)
+        shape = tuple(a.shape[i - (len(sizes) - a.ndim)] if int(sz) == -1 else int(sz) for i, sz in enumerate(sizes))
+        if shape == a.shape:
+            return self                 # nothing to broadcast: the same storage
+        v = real_np.broadcast_to(a, shape)        # stride-0 view, not contiguous (contiguous() copies it)
+        return _tag(T(v), self._dt)
+
+    def expand_as(self, other):
+        return self.expand(*real_np.shape(other))
+
+    def _inplace(self, ufunc, other):
+        r = ufunc(real_np.asarray(self).view(SArr), _un(other))
+        real_np.asarray(self)[...] = real_np.asarray(r)
         return self
+
+    def add_(self, other, alpha=1):
+        return self._inplace(real_np.add, other if alpha == 1 else _un(other) * alpha)
+
+    def sub_(self, other, alpha=1):
+        return self._inplace(real_np.subtract, other if alpha == 1 else _un(other) * alpha)
+
+    def mul_(self, other):
+        return self._inplace(real_np.multiply, other)
+
+    def remainder_(self, other):
+        return self._inplace(real_np.remainder, other)
+
+    def fmod_(self, other):
+        return self._inplace(real_np.remainder, other)
+
+    def copy_(self, other):
+        real_np.asarray(self)[...] = real_np.asarray(_un(other))
+        return self
+
+    def fill_(self, v):
+        real_np.asarray(self)[...] = v
+        return self
+
+    def zero_(self):
+        return self.fill_(0)
 
     def to(self, *a, **k):
         dt = None
@@ -353,6 +401,10 @@ def _idx(idx):
 # ---------------------------------------------------------------- constructors
 def tensor(x, dtype=None, device=None, **kw):
     if isinstance(x, Tensor):
+        if getattr(dtype, 'kind', None) in ('i', 'f') or dtype is int or dtype is float:
+            return x.to(dtype).clone() if x.to(dtype) is x else x.to(dtype)      # dtype conversion (bool -> 0/1, ...)
+        if dtype is bool_ or dtype is bool:
+            return x.to(bool_)
         return x.clone()
     if isinstance(x, real_np.ndarray):
         return T(x.astype(object).copy() if x.dtype != bool else x.copy())
@@ -382,8 +434,12 @@ def tensor(x, dtype=None, device=None, **kw):
     return r
 
 
-def as_tensor(x, **kw):
-    return tensor(x, **kw)
+def as_tensor(x, dtype=None, device=None, **kw):
+    if isinstance(x, Tensor) and dtype is None:
+        return x                    # no copy when nothing has to change
+    if isinstance(x, Tensor):
+        return x.to(dtype)          # the same tensor when the dtype already matches
+    return tensor(x, dtype=dtype)
 
 
 def _shape(shape):
